@@ -95,6 +95,20 @@ def primFieldReader (env : Env) (m : FieldMeta) (flex : Bool) (optional : Bool) 
     | .error e => fun _ => .error e
     | .ok r => r.run env
 
+/-- the `optional` flag `get_field_reader` looks the reader of a primitive field up with: a
+    nullable tagged field gets the nullable reader when the type has one (repaired; a peer may
+    send an explicit null), the plain one otherwise — and always the plain one as shipped -/
+def readerOptional (env : Env) (k : KType) (flex o tagged : Bool) : Bool :=
+  o && (!tagged || (env.nullableTaggedReader && (getReader k flex true).toOption.isSome))
+
+/-- the reader of a primitive (non-array) field -/
+def primFieldReaderT (env : Env) (m : FieldMeta) (flex o tagged : Bool) : Dec Value :=
+  match m.schemaFieldType with
+  | .error e => fun _ => .error e
+  | .ok k => match getReader k flex (readerOptional env k flex o tagged) with
+    | .error e => fun _ => .error e
+    | .ok r => r.run env
+
 def arrayReader (flex : Bool) (item : Dec Value) : Dec Value :=
   if flex then compactArrayReader item else legacyArrayReader item
 
@@ -141,7 +155,7 @@ def Field.read (env : Env) (flex rh tagged : Bool) : Field → Dec Value
     if rh && m.isClientId then readNullableLegacyString
     else Shape.read env flex tagged m sh
 def Shape.read (env : Env) (flex tagged : Bool) (m : FieldMeta) : Shape → Dec Value
-  | .prim _ o => primFieldReader env m flex (o && (env.nullableTaggedReader || !tagged))
+  | .prim _ o => primFieldReaderT env m flex o tagged
   | .primArr _ e a => arrayReader flex (primFieldReader env m flex (e || a))
   | .ent s o => if o then readNullable (Schema.read env s) else Schema.read env s
   | .entArr s _ => arrayReader flex (Schema.read env s)
@@ -253,7 +267,7 @@ def Field.readerBuildErr (env : Env) (flex rh : Bool) : Field → Option Err
       | some e => some e
       | none => if tag.isSome then exceptErr (Field.taggedDefault env (.mk m sh)) else none
 def Shape.readerBuildErr (env : Env) (flex tagged : Bool) (m : FieldMeta) : Shape → Option Err
-  | .prim _ o => exceptErr (do let k ← m.schemaFieldType; getReader k flex (o && (env.nullableTaggedReader || !tagged)))
+  | .prim _ o => exceptErr (do let k ← m.schemaFieldType; getReader k flex (readerOptional env k flex o tagged))
   | .primArr _ e a => exceptErr (do let k ← m.schemaFieldType; getReader k flex (e || a))
   | .ent s _ => Schema.readerBuildErr env s
   | .entArr s _ => Schema.readerBuildErr env s
